@@ -207,6 +207,11 @@ def c05():
                       "CuckatooContext::verify == Ok  <=>  right count, strictly ascending, in range, and the edges form one simple cycle (oracle from the graph definition), for EVERY assignment of endpoints to the nonces",
                       "proof size %d, edge_bits 10, nonces full width, endpoints arbitrary (siphash replaced by an arbitrary function)" % n,
                       env={"VH_N": n}, tag="_n%d" % n, est=est, replay="model", mem_est_gb=14 if n > 2 else 4))
+    for n, tiers, est in [(2, "qt", 300), (4, "t", 1500)]:
+        obs.append(ob("c05a::cuckaroo_verify_matches_definition", tiers, 2 * n + 3,
+                      "CuckarooContext::verify == Ok  <=>  right count, strictly ascending, in range, and the edges form one simple cycle (bipartite, node equality), for EVERY assignment of endpoints",
+                      "proof size %d, edge_bits 10, nonces full width, endpoints arbitrary (siphash_block replaced by an arbitrary function)" % n,
+                      env={"VH_N": n}, tag="_n%d" % n, est=est, replay="model", mem_est_gb=14 if n > 2 else 5))
     obs.append(ob("c05::pow_variant_selection", "qt", 4, "create_pow_context picks cuckatoo unless a production chain asks for <= 29 edge bits, then the cuckaroo variant of header_version(height), none after HF4",
                   "every chain type, height < 2^32, every edge_bits byte", est=60, replay="model"))
     return {
@@ -229,12 +234,26 @@ def c10():
         ob("c10::input_and_output_identifier_roundtrip", "qt", 8, "Input / OutputIdentifier round trip at every version", "all values", est=60, unwindset={"memcmp.0": 40}),
         ob("c10::input_canonical", "qt", 8, "Input: accepted bytes re-encode identically; unknown feature byte refused", "all 34-byte strings", est=60, unwindset={"memcmp.0": 40}),
     ]
+    obs.append(ob("c10::body_inputs_roundtrip_v2_v3", "t", 8, "[thorough-tier ATTEMPT: 660 s / 13 GB not enough] TransactionBody with two features-and-commit inputs decodes from its own encoding at v1/v2 (34-byte inputs) and v3/local (commitments only, re-sorted for the v3 reader); inputs compared by commitment",
+                  "2 inputs with symbolic commitments and features, no outputs / kernels, versions {1,2,3,1000}", est=3000, cap_s=3600, loops={"memcmp": 70, "memcpy": 100, "zeroize": 36}))
+    for h, L, what in [
+        ("ping_canonical", 16, "p2p Ping"), ("pong_canonical", 16, "p2p Pong"), ("ban_reason_canonical", 4, "p2p BanReason"),
+("txhashset_request_canonical", 40, "p2p TxHashSetRequest"),
+        ("txhashset_archive_canonical", 48, "p2p TxHashSetArchive"), ("segment_request_canonical", 41, "p2p SegmentRequest"),
+        ("segment_identifier_canonical", 9, "SegmentIdentifier"), ("tip_canonical", 80, "chain Tip"), ("commit_pos_canonical", 16, "chain CommitPos"),
+        ("header_version_canonical", 2, "HeaderVersion"), ("output_identifier_canonical", 34, "OutputIdentifier"),
+        ("txkernel_canonical", 114, "TxKernel (all variants, v1 and v2+ layouts)"), ("difficulty_canonical", 8, "Difficulty"),
+    ]:
+        obs.append(ob("c10b::" + h, "qt", 20, "%s: any accepted byte string re-encodes to exactly the bytes consumed (reader and writer agree on field order and widths; nothing normalised)" % what,
+                      "all %d-byte strings x protocol versions {1,2,3,1000}" % L, est=60, loops={"memcmp": 120, "memcpy": 120, "read_empty_bytes": 18}))
+    obs.append(ob("c10b::block_header_canonical", "t", 12, "BlockHeader: any accepted 257-byte string re-encodes identically (timestamp via chrono, all roots, proof of work)",
+                  "[thorough-tier ATTEMPT: exceeded 20 GB in the quick tier] AutomatedTesting proof size 8, edge_bits 10, all other bytes symbolic", est=3000, cap_s=3600, loops={"memcmp": 300, "memcpy": 300, "zeroize": 36}, mem_est_gb=8))
     return {
         "obligations": obs,
         "stubs": BASE_STUBS + ["E4a Blake2b::compress -> cheap deterministic mixer (equal bytes => equal hash is all the clause needs)"],
         "explanation": "Bounded proof over the Writeable/Readable impls of the fixed-size consensus objects with fully symbolic values / byte strings.",
         "bounds": "fixed-size types: every field at full width; protocol versions {1,2,3,1000}",
-        "outside": "containers (TransactionBody, Block, CompactBlock), headers, segments, p2p messages: not yet encoded in this revision",
+        "outside": "containers (TransactionBody, Block, CompactBlock, Segment, Headers, PeerAddrs, Locator), Hand/Shake (length-prefixed strings), Output range proofs, header edge_bits other than 10",
         "assumptions": [],
     }
 
